@@ -6,7 +6,7 @@ V=$(pwd)
 W=/tmp/seedconfirm
 git -C /repo worktree remove --force $W 2>/dev/null
 git -C /repo worktree add -f $W HEAD -q
-for d in seeded/*/; do
+for d in ${SEEDS:-seeded/*/}; do
   id=$(basename "$d")
   cd $W && git checkout -q -- . && rm -f tests/seed_demo.rs
   cp "$V/$d/demo.rs" tests/seed_demo.rs
